@@ -34,9 +34,60 @@ def programs():
     return P
 
 
+def bundled(tier):
+    """Workflows shipped in the repository (tests/resources, rally-jobs),
+    run with their real std.* actions: differential oracle only."""
+    import os
+    import yaml
+    from mc import env
+    quick = tier == 'quick'
+    R = os.path.join(env.TREE, 'mistral', 'tests', 'resources')
+    J = os.path.join(env.TREE, 'rally-jobs', 'extra')
+
+    def rd(*p):
+        with open(os.path.join(*p)) as f:
+            return f.read()
+
+    out = []
+    try:
+        out.append(('wf_v2.wf', rd(R, 'wf_v2.yaml'), 'wf', {}, {}, False, 2))
+        out.append(('wf_v2.wf1', rd(R, 'wf_v2.yaml'), 'wf1',
+                    {'farewell': 'Bye'}, {'task_name': 'goodbye'}, False, 2))
+        out.append(('wb_with_nested_wf', rd(R, 'wb_with_nested_wf.yaml'),
+                    'wb_with_nested_wf.wrapping_wf', {}, {}, True, 2))
+        docs = {'version': '2.0'}
+        for f in ('lowest_level_wf', 'middle_wf', 'top_level_wf'):
+            d = yaml.safe_load(rd(R, 'for_wf_namespace', f + '.yaml'))
+            docs.update({k: v for k, v in d.items() if k != 'version'})
+        out.append(('for_wf_namespace', yaml.safe_dump(docs, sort_keys=False),
+                    'top_level_wf', {}, {}, False, 2))
+        out.append(('rally.mistral_wb', rd(J, 'mistral_wb.yaml'), 'wb.wf1',
+                    {}, {}, True, 2))
+        out.append(('rally.nested_wb', rd(J, 'nested_wb.yaml'),
+                    'wb.wrapping_wf', {}, {}, True, 0 if quick else 1))
+        for cnt, conc in ((2, 0), (3, 2)):
+            out.append(('rally.with_items.%d.%d' % (cnt, conc),
+                        rd(J, 'scenarios', 'with_items', 'wb.yaml'),
+                        'with_items_wb.wf',
+                        {'count': cnt, 'concurrency': conc}, {}, True,
+                        1 if quick else 2))
+    except (IOError, OSError):
+        pass
+    jobs = []
+    for name, text, wf, inp, params, wb, k in out:
+        for cc in (False, True):
+            scn = wfscn.WfScenario(
+                'bundled/%s/%s' % (name, 'evict' if cc else 'cached'), text,
+                wf=wf, wf_input=inp, params=params, workbook=wb,
+                clear_caches=cc)
+            jobs.append((scn, k, 40 if quick else 900, 1,
+                         'bundled/%s' % name, 0))
+    return jobs
+
+
 def scenarios(tier):
     quick = tier == 'quick'
-    jobs = []
+    jobs = bundled(tier)
     for name, prog in programs().items():
         n = wfgen.program_size(prog)
         assigns = wfgen.result_assignments(prog)
@@ -84,7 +135,11 @@ def main(tier):
     deadline = time.time() + (200 if tier == 'quick' else 3000)
     res = common.parallel_map(common.explore_job, [j[:4] for j in jobs],
                               deadline=deadline)
-    rep.add_explore_results(jobs, res)
+    for klass in ('bundled', 'generated'):
+        idx = [i for i, j in enumerate(jobs)
+               if j[4].startswith('bundled/') == (klass == 'bundled')]
+        rep.add_explore_results([jobs[i] for i in idx],
+                                [res[i] for i in idx], klass)
     # differential: within one scenario and across cache modes
     groups = {}
     for job, r in zip(jobs, res):
@@ -137,7 +192,7 @@ def main(tier):
         'transactions are atomic steps',
     ]
     return rep.finish(
-        rule='confluent programs x result assignments x {caches kept, all '
+        rule='confluent generated programs x result assignments and the repository-bundled workflows (real std actions) x {caches kept, all '
              'spec caches dropped before every step}; DFS over all '
              'interleavings; outcomes compared across schedules, across '
              'cache modes and with the reference model')
